@@ -152,6 +152,13 @@ PRIMS['substr_lemma'] = p_substr_lemma
 from .values import VTuple  # noqa: E402
 
 
+def _no_such(what):
+    """placeholder for an observation of a call that did not happen on this path (the clause that
+    mentions it is guarded by the call's presence); an arbitrary value of the universal type"""
+    from .values import VAny, Val
+    return VAny(z3.Const('no_such_ext_' + what, Val))
+
+
 def p_ext_names(I, args, kwargs, node):
     """names of the external calls made on this path, in order"""
     return VTuple([VStr(r['name']) for r in I.ghost.get('ext_trace', [])])
@@ -174,7 +181,7 @@ def p_ext_call_arg(I, args, kwargs, node):
     rs = [r for r in I.ghost.get('ext_trace', []) if r['name'] == nm]
     if k < len(rs) and j < len(rs[k]['args']):
         return rs[k]['args'][j]
-    return VStr(z3.String('no_such_ext_arg'))
+    return _no_such('arg')
 
 
 def p_ext_call_kwarg(I, args, kwargs, node):
@@ -184,7 +191,7 @@ def p_ext_call_kwarg(I, args, kwargs, node):
     rs = [r for r in I.ghost.get('ext_trace', []) if r['name'] == nm]
     if k < len(rs):
         return rs[k]['kwargs'].get(kw, NONE)
-    return VStr(z3.String('no_such_ext_call'))
+    return _no_such('call')
 
 
 def p_ext_call_nkwargs(I, args, kwargs, node):
@@ -201,7 +208,7 @@ PRIMS['ext_call_nkwargs'] = p_ext_call_nkwargs
 def p_ext_call_result(I, args, kwargs, node):
     nm, k = [_m.concretise(a) for a in args]
     rs = [r for r in I.ghost.get('ext_trace', []) if r['name'] == nm and 'result' in r]
-    return rs[k]['result'] if k < len(rs) else VStr(z3.String('no_such_ext_result'))
+    return rs[k]['result'] if k < len(rs) else _no_such('result')
 
 
 def p_ext_snapshot(I, args, kwargs, node):
@@ -210,7 +217,7 @@ def p_ext_snapshot(I, args, kwargs, node):
     rs = [r for r in I.ghost.get('ext_trace', []) if r['name'] == nm]
     if k < len(rs) and x in rs[k].get('snapshot', {}):
         return rs[k]['snapshot'][x]
-    return VStr(z3.String('no_such_ext_snapshot'))
+    return _no_such('snapshot')
 
 
 PRIMS['ext_snapshot'] = p_ext_snapshot
